@@ -119,6 +119,20 @@ use crate::storage::TtlLease;
 
 type FileStateMachineDataType = RwLock<HashMap<Bytes, (Bytes, u64)>>;
 
+/// Verification hook (compiled only with `--cfg d_engine_verif`; add-only, no behaviour change).
+///
+/// `apply_chunk` calls the registered callback between the in-memory update (PHASE 3, write lock
+/// already released) and `update_last_applied` (PHASE 4), so that an out-of-tree harness can run a
+/// concurrent reader (`scan_prefix`) exactly in that window. Without a callback it does nothing.
+#[cfg(d_engine_verif)]
+static VERIF_FILE_APPLY_GAP: std::sync::OnceLock<fn()> = std::sync::OnceLock::new();
+
+/// Register the callback described at `VERIF_FILE_APPLY_GAP` (first registration wins).
+#[cfg(d_engine_verif)]
+pub fn verif_set_file_apply_gap_callback(f: fn()) {
+    let _ = VERIF_FILE_APPLY_GAP.set(f);
+}
+
 /// WAL operation codes for fixed-size encoding
 #[repr(u8)]
 #[derive(Debug, Clone, Copy, PartialEq, Eq)]
@@ -1250,6 +1264,11 @@ impl StateMachine for FileStateMachine {
                 }
             }
         } // Lock released immediately - no awaits inside!
+
+        #[cfg(d_engine_verif)]
+        if let Some(f) = VERIF_FILE_APPLY_GAP.get() {
+            f();
+        }
 
         // PHASE 4: Update last applied index and conditionally checkpoint.
         // WAL (written in PHASE 2) is the primary crash-safety path.
